@@ -605,6 +605,9 @@ func init() {
 				n.I = append(n.I, add)
 				n.P = append(n.P, mn, mn.Add(sz))
 			}
+			// the set may have a sibling: it was poured into a fresh set (or received a fresh set's content) and the
+			// sibling is then edited on its own; the set under test is the untouched one
+			n.Bits = rapid.SampledFrom([]string{"", "", "sibling-of", "sibling-from"}).Draw(g.t, lab+".sibling")
 			return n
 		},
 		build: func(b *built) {
@@ -616,6 +619,19 @@ func init() {
 					rs.Add(r)
 				} else {
 					rs.Remove(r)
+				}
+			}
+			switch b.n.Bits {
+			case "sibling-of", "sibling-from":
+				sib := toolbox3d.NewRectSet()
+				sib.AddRectSet(rs)
+				if b.n.Bits == "sibling-from" {
+					rs, sib = sib, rs
+				}
+				// edits with coordinates the other set has never seen, inside and beyond its extent
+				for _, k := range []float64{0.37, -0.61, 2.3, -2.9} {
+					sib.Add(&model3d.Rect{MinVal: model3d.XYZ(k, k, k), MaxVal: model3d.XYZ(k+0.21, k+0.33, k+0.47)})
+					sib.Remove(&model3d.Rect{MinVal: model3d.XYZ(k-0.13, k-0.17, k-0.19), MaxVal: model3d.XYZ(k+0.05, k+0.07, k+0.11)})
 				}
 			}
 			b.set3(rs.Solid())
